@@ -124,6 +124,18 @@ def cliLine (st : CliState) (line : String) : CliState × List String :=
     (match st.cur with
      | some c => if c.id == id then (st, cliCheckAnswers c tool (answers.splitOn ",")) else (st, [s!"BADLINE {line}"])
      | none => (st, [s!"BADLINE {line}"]))
+  | "iso" :: _ => (st, [])
+  | ["R", id, "gw", "iso", same, alone, withB] =>
+    if same == "same=1" then (st, [])
+    else
+      let txt := fun (s : String) => match parseHex ((s.splitOn "=").getD 1 "") with
+        | some b => (String.fromUTF8? (ByteArray.mk b.toArray)).getD "?"
+        | none => "?"
+      let a := txt alone
+      let b := txt withB
+      -- first position where the two transcripts differ
+      let i := ((a.toList.zip b.toList).findIdx fun (x, y) => x != y)
+      (st, [s!"MON C15 interference sig=observed-session-differs case={id} alone=[…{(a.drop (i - min i 60)).take 160}] with-second-peer=[…{(b.drop (i - min i 60)).take 160}]"])
   | ["R", id, tool, "err", cls] =>
     (match st.cur with
      | some c =>
